@@ -21,7 +21,7 @@ import (
 // changes). Calls whose effect on the sketch is not certain (updates, snapshot loads) add nothing to the bound.
 
 type ceAction struct {
-	Op  string `json:"op"` // set read setmax save load
+	Op  string `json:"op"` // set read setmax save load burst (N buffered reads, then an overwrite or invalidation of the key, then maintenance)
 	Key int    `json:"key"`
 	N   int    `json:"n,omitempty"`
 }
@@ -43,7 +43,7 @@ func genCE(t *rapid.T) ceCase {
 	}
 	c.Keys = rapid.IntRange(2, max(3, c.Max*2)).Draw(t, "keys")
 	c.Prefill = pick(t, "prefill", 0, c.Max/2+1, c.Max/2+1, c.Max)
-	ops := []string{"set", "set", "set", "read", "read", "read", "read", "setmax", "save", "load", "load"}
+	ops := []string{"set", "set", "set", "read", "read", "read", "read", "setmax", "save", "load", "load", "burst", "burst"}
 	c.Actions = rapid.SliceOfN(rapid.Custom(func(t *rapid.T) ceAction {
 		a := ceAction{Op: ops[rapid.IntRange(0, len(ops)-1).Draw(t, "op")], Key: rapid.IntRange(0, c.Keys-1).Draw(t, "key")}
 		if rapid.IntRange(0, 2).Draw(t, "hot") == 0 {
@@ -52,6 +52,8 @@ func genCE(t *rapid.T) ceCase {
 		switch a.Op {
 		case "read":
 			a.N = rapid.IntRange(1, 15).Draw(t, "n")
+		case "burst":
+			a.N = rapid.IntRange(-15, 15).Draw(t, "n") // negative: the reads are followed by an invalidation instead of an overwrite
 		case "setmax":
 			a.N = pick(t, "newmax", c.Max, c.Max/2, c.Max*2, c.Max+1, 8)
 		}
@@ -73,7 +75,7 @@ func runCE(c ceCase) (o outcome) {
 	lb := map[int]uint64{}
 	var snapshot []byte
 	snapEntries := 0
-	agings, reallocs, loads, high := 0, 0, 0, 0
+	agings, reallocs, loads, high, staleReads := 0, 0, 0, 0, 0
 	// call runs one cache call plus the maintenance that delivers its events, and keeps the lower bounds sound
 	call := func(f func(), certain func(), uncertainIncrements int) error {
 		size0, sample0, len0 := cache.VerifSketchState()
@@ -137,6 +139,33 @@ func runCE(c ceCase) (o outcome) {
 					}
 				}, 0)
 			}
+		case "burst":
+			// reads that wait in the read buffer while their entry is replaced or removed: they are delivered for a node that
+			// is no longer alive, and are recordings of the key all the same
+			n := a.N
+			if n < 0 {
+				n = -n
+			}
+			buffered := uint64(0)
+			seq++
+			err = call(func() {
+				for j := 0; j < n; j++ {
+					l0 := cache.VerifReadBufferLen()
+					if _, hit := cache.GetIfPresent(a.Key); hit && cache.VerifReadBufferLen() == l0+1 {
+						buffered++ // accepted by the buffer: the next maintenance delivers it
+					}
+				}
+				if a.N < 0 {
+					cache.Invalidate(a.Key)
+				} else {
+					cache.Set(a.Key, seq)
+				}
+			}, func() {
+				lb[a.Key] = min(15, lb[a.Key]+buffered)
+				if buffered > 0 {
+					staleReads++
+				}
+			}, n+1)
 		case "setmax":
 			m := uint64(max(1, a.N))
 			if c.Weighted {
@@ -181,6 +210,9 @@ func runCE(c ceCase) (o outcome) {
 	if high > 0 {
 		o.Classes = append(o.Classes, "estimate>=12-expected")
 	}
+	if staleReads > 0 {
+		o.Classes = append(o.Classes, "reads-delivered-for-a-replaced-or-removed-entry")
+	}
 	kinds := ""
 	for _, a := range c.Actions {
 		kinds += a.Op[:2]
@@ -192,7 +224,7 @@ func runCE(c ceCase) (o outcome) {
 func TestC18_CacheEstimates(t *testing.T) {
 	propMain(t, propSpec[ceCase]{
 		Prop: "C18", Test: "CacheEstimates",
-		Rule: "one goroutine, same-goroutine executor, CleanUp after every call (so every read reaches the policy): Set, runs of 1-15 GetIfPresent on (often hot) keys, run-time SetMaximum (halved, doubled, +1, 8), SaveCacheTo and LoadCacheFrom of an earlier snapshot into the same, already tracking cache, on size- and weight-bounded caches of 8-200 entries; " +
+		Rule: "one goroutine, same-goroutine executor, CleanUp after every call or burst (so every read the buffer accepted reaches the policy): Set, runs of 1-15 GetIfPresent on (often hot) keys, run-time SetMaximum (halved, doubled, +1, 8), SaveCacheTo and LoadCacheFrom of an earlier snapshot into the same, already tracking cache, and bursts of up to 15 reads that stay in the read buffer while their entry is overwritten or invalidated (delivered for a node that is no longer alive, counted when the buffer accepted them), on size- and weight-bounded caches of 8-200 entries; " +
 			"the harness keeps a lower bound of the recordings of each key in the current sampling period (+1 per delivered hit and per creation while tracking is on, halved when the sketch's size counter shows an aging step, dropped when the table length changes) and after every call the cache's own estimate of every key must be at least that bound and at most 15; non-trivial = some key had an expected estimate >= 12",
 		Assumptions: []string{"the sketch counters are read through the verif exports VerifFrequency / VerifSketchState (read-only, under the eviction lock)"},
 		Gen:         genCE, Run: runCE,
